@@ -266,6 +266,7 @@ reg("C07", ["c07_regp_corrupt.c"], level="fault_enumeration",
                  "x word size octets"])
 
 reg("C09", ["c09_regp_safety.c"], level="fault_enumeration",
+    fuzz={"target": "fuzz/fz_regp.c", "runs": {"quick": 640000, "thorough": 48000000}, "max_len": 700},
     rule="'lengths': both transports x allocator block sizes {65,66,70,75..82,96,128,200} (capacity = block - "
          "sizeof(RPFrame)) x every frame length 0..capacity+40 (8-bit write request, cut short or padded where no "
          "complete frame has that length); 'reads': both transports x 8/16-bit memory x block sizes "
